@@ -64,7 +64,7 @@ def gen_cases(rng, tier, names=None, per=None):
             ins, regime, _ = make_inputs(rng, name, n, REGIMES[(j // 2) % len(REGIMES)] if j % 2 else None)
             cases.append((name, ns, fs, ins, regime))
         # every indicator meets the cancellation-prone regimes on a series comfortably longer than its warm-up
-        for regime in ('offset', 'outlier', 'ties', 'anyorder', 'anyorder'):
+        for regime in ('offset', 'outlier', 'ties', 'anyorder', 'anyorder', 'micro'):
             ns, fs = cfg(rng, hi)
             ns, fs = list(ns), list(fs)
             w = idle_of(name, ns)
@@ -893,7 +893,7 @@ def c15_cases(rng, tier, names, per):
             ns, fs = list(ns), list(fs)
             w = idle_of(name, ns)
             n = rng.choice([w + 1, w + 2, 2 * w + 2, rng.randrange(w, w + 80)])
-            regime = REGIMES[j % len(REGIMES)]
+            regime = REGIMES[j % len(REGIMES)] if j % 12 != 11 else 'micro'
             ins, regime, ohlcv = make_inputs(rng, name, n, regime)
             if name in ('MovingMax', 'MovingMin', 'MovingStd') and j % 3 == 1:
                 # the volume column of a valid OHLCV series: non-negative, with non-traded bars (zeros)
